@@ -16,7 +16,9 @@ for d, wave in [(d, w) for SRC, w in SRCS for d in sorted(glob.glob(f"{SRC}/C*/_
     for diff in sorted(glob.glob(f"{d}/?.diff") + glob.glob(f"{d}/?x.diff")):
         x0 = os.path.basename(diff)[:-5]
         if len(x0) == 1 and os.path.exists(f"{d}/{x0}x.diff"):
-            continue          # superseded by its rebase onto the repaired tree (a later fix: commit touched the same lines)
+            # superseded by its rebase onto the repaired tree (a later fix: commit touched the same lines)
+            shutil.rmtree(f"{OUT}/{prop}-{wave}{x0}", ignore_errors=True)
+            continue
         x = wave + x0
         log = f"{CONF}/{prop}_{x}.log"
         if not os.path.exists(log):
